@@ -59,6 +59,8 @@ operations of that attempt are accepted without model steps until the request re
 structure RSt where
   st : St
   cleanup : List Nat
+  /-- the live token of a rewrap chain (sequential `hist` cases) -/
+  chain : Option WToken := none
 
 abbrev DSt := Option RSt
 
@@ -213,6 +215,10 @@ def origResp? : String → Option Resp
 
 def workerTwice (s : St) : St := run [s.pcs.length, s.pcs.length] s
 
+def showInfo (i : WInfo) : String := s!"path:{i.path}/ttl:{i.ttl}"
+
+def deadTok : String := "err:invalid-wrapping-token"
+
 def fresh (s : St) : DSt := some { st := s, cleanup := [] }
 
 def stepD (st : DSt) (fs : List String) : DSt × String :=
@@ -227,6 +233,13 @@ def stepD (st : DSt) (fs : List String) : DSt × String :=
       if ks.length = m then (fresh (initW true 1 ks), showResp (wrapResponse r)) else (st, "bad-op")
     | _, _, _ => (st, "bad-op")
   | ["wseq"] => (fresh (initW true 1 []), "ok")
+  | ["hist", path, ttl] =>
+    -- a response wrapped for a request on `path`: what the requester's wrap_info says
+    match ttl.toNat? with
+    | some ttl =>
+      let tok := wrapFirst path ttl
+      (some { st := initW true 1 [], cleanup := [], chain := some tok }, showInfo tok.handed)
+    | none => (st, "bad-op")
   | _ =>
     match st with
     | none => (none, "bad-op")
@@ -271,6 +284,23 @@ def stepD (st : DSt) (fs : List String) : DSt × String :=
         -- whatever the probe did, it went through the use step: the single use is gone
         let (s1, _) := onAfter (initW true 1 []) .other
         (st, (onAfter (workerTwice s1) .unwrap3).2)
+      | ["hlookup"] =>
+        match rs.chain with
+        | some tok => (st, showInfo (lookupInfo tok) ++ "/time:fresh")
+        | none => (st, deadTok)
+      | ["hrewrap", "3"] =>
+        match rs.chain with
+        | some tok => let t' := rewrapTok tok; (some { rs with chain := some t' }, showInfo t'.handed)
+        | none => (st, deadTok)
+      | ["hrewrap", "1"] =>
+        -- the wrapping token's own policy does not grant sys/wrapping/rewrap: the use is consumed, nothing issued
+        match rs.chain with
+        | some _ => (some { rs with chain := none }, "denied")
+        | none => (st, deadTok)
+      | ["hunwrap"] =>
+        match rs.chain with
+        | some _ => (some { rs with chain := none }, "ok+payload")
+        | none => (st, deadTok)
       | ["expiry", k] =>
         -- TTL elapsed: the token's own lease expired, the expiration worker revoked the token
         match parseKind? k with
